@@ -159,17 +159,15 @@ func cmdDoc(args []string) *Result {
 	if len(args) < 2 {
 		die("usage: doc c06|c20 <tlc outputs...>")
 	}
-	for _, path := range args[1:] {
-		forEachTLCRecord(path, func(raw []byte) {
-			var r docRec
-			mustUnmarshal(raw, &r)
-			if args[0] == "c20" {
-				docCheckC20(res, &r)
-			} else {
-				docCheckC06(res, &r)
-			}
-		})
-	}
+	res = parallelTLCRecords(args[1:], func(res *Result, raw []byte) {
+		var r docRec
+		mustUnmarshal(raw, &r)
+		if args[0] == "c20" {
+			docCheckC20(res, &r)
+		} else {
+			docCheckC06(res, &r)
+		}
+	})
 	res.Traces = res.Evaluations
 	return res
 }
